@@ -5,6 +5,8 @@ package main
 import (
 	"context"
 	"fmt"
+	"os"
+	"os/exec"
 	"strings"
 	"sync"
 
@@ -230,9 +232,72 @@ func asymmetricExcursions(c *caseCtx, s state) ([]string, []string, bool) {
 	return nil, nil, false
 }
 
+// runDetChild (separate process): analyses "fen|moves|depth" one after the other, each on an engine of its
+// own, and prints the result of the last one.
+func runDetChild(name string, specs []string) {
+	ctx := context.Background()
+	var last analysis
+	for _, sp := range specs {
+		parts := strings.Split(sp, "|")
+		if len(parts) != 3 {
+			continue
+		}
+		var depth uint
+		fmt.Sscan(parts[2], &depth)
+		e, _ := bundledEngineSeed(ctx, name, 0, 0, 0, 0)
+		a, _, ok := analyse(ctx, e, parts[0], strings.Fields(parts[1]), depth)
+		if ok {
+			last = a
+		}
+	}
+	fmt.Println("RESULT " + last.String())
+}
+
+// processStateChecks: what an analysis returns does not depend on what OTHER engines in the same process
+// analysed before (no state outside the engine): the analysis of B alone in a fresh process equals the
+// analysis of B after A in one process, for pairs A, B that reach the same position with different
+// histories (castled or walked by hand, set up from a FEN or played).
+func processStateChecks(c *caseCtx) {
+	type pair struct{ a, b string }
+	castled := "rnbqkbnr/pppppppp/8/8/8/8/PPPPPPPP/RNBQKBNR w KQkq - 0 1|e2e4 e7e5 g1f3 b8c6 f1c4 f8c5 e1g1|2"
+	bare := "r1bqk1nr/pppp1ppp/2n5/2b1p3/2B1P3/5N2/PPPP1PPP/RNBQ1RK1 b kq - 5 4||2"
+	hand := "4k3/pppppppp/8/8/8/8/PPPPP1PP/4K2R w K - 0 1|h1f1 e8d8 e1f2 d8e8 f2g1|2"
+	cast := "4k3/pppppppp/8/8/8/8/PPPPP1PP/4K2R w K - 0 1|e1g1|2"
+	pairs := []pair{{castled, bare}, {bare, castled}, {hand, cast}, {cast, hand}}
+	n := 0
+	for _, name := range []string{"turochamp", "sargon", "bernstein", "morlock"} {
+		for i, p := range pairs {
+			if name != "turochamp" && name != "sargon" && i > 1 {
+				continue
+			}
+			run := func(specs ...string) (string, bool) {
+				cmd := exec.Command(os.Args[0], append([]string{"det-child", name}, specs...)...)
+				out, err := cmd.Output()
+				if err != nil {
+					return "", false
+				}
+				for _, l := range strings.Split(string(out), "\n") {
+					if strings.HasPrefix(l, "RESULT ") {
+						return l[7:], true
+					}
+				}
+				return "", false
+			}
+			alone, ok1 := run(p.b)
+			after, ok2 := run(p.a, p.b)
+			n++
+			if ok1 && ok2 && alone != after {
+				fmt.Printf("IMPLVIOL determinism %s second=%q first=%q :: analysed after the other game in the same process the engine returns [%s], alone in a process [%s] prop=C18 key=process-state\n", name, p.b, p.a, after, alone)
+			}
+		}
+	}
+	fmt.Printf("COUNT process-state %d\n", n)
+}
+
 // C18: what a search returns depends only on the game state and the depth.
 func casesDeterminism(c *caseCtx) {
 	ctx := context.Background()
+	processStateChecks(c)
 	engines := []string{"morlock", "turochamp", "bernstein", "sargon"}
 	n := 0
 	viol := func(key, what string) {
